@@ -168,6 +168,16 @@ def check_types(case: typing.Any, ctx: Ctx) -> Info:
     require(_summary(y, sa) == _summary(a, sa), "pickle-layout", _summary(a, sa), _summary(y, sa), detail)
     nested_pickle = layout.depth(sa) >= 2
     mutated = False
+    # the parts of a type are values too: having used the container (==, hash, residues mod 32, pickle) leaves every nested type
+    # equal to an independently built, so far untouched instance of the same description.  Children are compared before their
+    # parents (creation order), so that each fresh object is still untouched when its turn comes.
+    bf = ApiBuilder()
+    guarded(bf.build, sa, what="construct")
+    for (s1, t1), (_s2, t2) in zip(ba.by_spec, bf.by_spec):
+        where = detail + " ; nested " + str(t1)
+        require(bool(t1 == t2) and bool(t2 == t1), "nested-type-changed-by-use-of-container", str(t2), str(t1), where)
+        require(hash(t1) == hash(t2), "nested-type-changed-by-use-of-container:hash", hash(t2), hash(t1), where)
+        require(_summary(t1, s1) == _summary(t2, s1), "nested-type-changed-by-use-of-container:layout", _summary(t2, s1), _summary(t1, s1), where)
     if isinstance(a, pydsdl.CompositeType):
         from ..gen import workspace as wsp
 
@@ -369,6 +379,95 @@ def check_bls(case: typing.Any, ctx: Ctx) -> Info:
     return Info(True, ["bls", "rewritten" if case["b"] is None else "independent", "same" if same else "different" if same is False else "unknown"], sample=detail)
 
 
+# ------------------------------------------------------------------------------------------- pickles that travel
+
+TRAVEL_CHILD = r"""
+import json, pickle, sys
+sys.path[:0] = [%(repo)r, %(deps)r, %(verif)r]
+from vf.props import c18
+print(json.dumps(c18.travel_child(sys.argv[1])))
+"""
+
+
+def _travel_objects(case: typing.Any) -> typing.List[typing.Tuple[str, typing.Any]]:
+    out: typing.List[typing.Tuple[str, typing.Any]] = []
+    for i, sp in enumerate(case["specs"]):
+        b = ApiBuilder()
+        t = b.build(layout.freeze(sp))
+        out.append(("type%d" % i, t))
+        for j, (_s, sub) in enumerate(b.by_spec[:-1][:6]):
+            out.append(("type%d.part%d" % (i, j), sub))
+    for i, d_ in enumerate(case["attrs"]):
+        out.append(("attr%d" % i, _build_attr(d_)))
+    for i, v in enumerate(case["values"]):
+        out.append(("value%d" % i, _build_value(v)))
+    return out
+
+
+def travel_child(path: str) -> typing.List[str]:
+    """Runs in a process with another hash seed: what was pickled elsewhere must equal - and hash like - what is built here."""
+    import json
+
+    with open(path + ".json") as f:
+        case = json.load(f)
+    with open(path + ".pickle", "rb") as f:
+        loaded = pickle.load(f)
+    problems = []
+    fresh = dict(_travel_objects(case))
+    for name, obj in loaded.items():
+        mine = fresh[name]
+        if not (obj == mine and mine == obj):
+            problems.append("%s: unpickled object differs from the one built here: %s" % (name, obj))
+        elif hash(obj) != hash(mine):
+            problems.append("%s: equal objects, different hashes in the loading process: %s" % (name, obj))
+        elif {obj: 1}.get(mine) != 1 or mine not in {obj}:
+            problems.append("%s: dict / set lookup between equal objects fails: %s" % (name, obj))
+        elif str(obj) != str(mine) or repr(obj) != repr(mine):
+            problems.append("%s: string forms differ" % name)
+    return problems
+
+
+def check_travel(case: typing.Any, ctx: Ctx) -> Info:
+    import json
+    import os
+    import subprocess
+    import sys
+
+    objs, _ = guarded(_travel_objects, case, what="construct")
+    if case["touch"]:
+        for _n, o in objs:
+            hash(o)  # whatever an object remembers about itself must still be right where the pickle is opened
+            _ = o == o
+    d = ctx.scratch()
+    try:
+        base = os.path.join(d, "travel")
+        with open(base + ".json", "w") as f:
+            json.dump(case, f)
+        with open(base + ".pickle", "wb") as f:
+            pickle.dump(dict(objs), f, protocol=case["protocol"])
+        verif = os.path.dirname(os.path.dirname(os.path.dirname(os.path.abspath(__file__))))
+        script = os.path.join(d, "child.py")
+        with open(script, "w") as f:
+            f.write(TRAVEL_CHILD % {"repo": ctx.repo, "deps": os.path.join(verif, ".deps"), "verif": verif})
+        env = dict(os.environ, PYTHONHASHSEED=str(case["hashseed"]))
+        env["PYTHONPATH"] = os.pathsep.join([ctx.repo, os.path.join(verif, ".deps"), verif])
+        p = subprocess.run([sys.executable, script, base], env=env, capture_output=True, text=True, timeout=300)
+        if p.returncode != 0:
+            tail = (p.stderr.strip().splitlines() or [""])[-1]
+            if "/pydsdl/" in p.stderr:
+                raise Violation("pickle-unloadable-in-another-process", "loads", tail[:300], p.stderr[-1500:])
+            raise HarnessError("travel child failed: %s" % p.stderr[-2000:])
+        problems = json.loads(p.stdout.strip().splitlines()[-1])
+    finally:
+        ctx.cleanup(d)
+    if problems:
+        kind = "different-hash" if any("different hashes" in x or "lookup" in x for x in problems) else "not-equal"
+        raise Violation("pickle-across-processes:" + kind, "equal objects with equal hashes", problems[:5], "PYTHONHASHSEED=%d, touched before pickling: %s" % (case["hashseed"], case["touch"]))
+    ctx.extra["child_processes"] = ctx.extra.get("child_processes", 0) + 1
+    return Info(True, ["travel", "objects:%d" % len(objs), "touched" if case["touch"] else "untouched", "protocol:%d" % case["protocol"]],
+                sample={"objects": [n + " = " + str(o)[:80] for n, o in objs[:8]], "hashseed": case["hashseed"]})
+
+
 def parts(ctx: Ctx) -> typing.List[Part]:
     specs = st.one_of(gt.composites(gt.small_capacity(), max_leaves=6), gt.composites(gt.layout_capacity(), max_leaves=5), gt.field_types(gt.small_capacity(), max_leaves=4))
     edit = st.one_of(
@@ -429,9 +528,20 @@ def parts(ctx: Ctx) -> typing.List[Part]:
         st.fixed_dictionaries({"a": gbls.trees(max_leaves=4), "b": gbls.trees(max_leaves=4), "how": st.just(0), "spell": st.integers(0, 2**20)}),
         st.fixed_dictionaries({"a": gbls.trees(max_leaves=4, huge=True), "b": st.none(), "how": st.integers(0, 10000), "spell": st.integers(0, 2**20)}),
     )
+    travel_cases = st.fixed_dictionaries(
+        {
+            "specs": st.lists(st.one_of(gt.composites(gt.small_capacity(), max_leaves=5), gt.field_types(gt.small_capacity(), max_leaves=3)), min_size=1, max_size=4),
+            "attrs": st.lists(attr(), max_size=3),
+            "values": st.lists(val, max_size=3),
+            "touch": st.sampled_from([True, True, False]),
+            "protocol": st.integers(2, pickle.HIGHEST_PROTOCOL),
+            "hashseed": st.integers(1, 2**31 - 1),
+        }
+    )
     return [
         Part("types", type_cases, check_types, weight=4, cost=1.5),
         Part("attributes", attr_cases, check_attributes, weight=1),
         Part("values", value_cases, check_values, weight=1),
         Part("bls", bls_cases, check_bls, weight=2),
+        Part("travel", travel_cases, check_travel, weight=1, cost=12.0, min_examples=6),
     ]
